@@ -145,7 +145,7 @@ type zzG struct {
 	// per-section scratch (excluded from memoisation; rewritten by every pre hook)
 	hOtherReqIn, hMineIn, hOtherIn, hQ1In bool
 	preIncoming, preNotif                int
-	preOtherP, preDone                   bool
+	preOtherP, preDone, preOtherRet      bool
 	preQueue                             []*incomingRequest
 	preHandlerRunning, preWriteErrNil    bool
 	preMineOpen                          bool
@@ -339,7 +339,7 @@ func (g *zzG) inv() bool {
 func (g *zzG) install() {
 	c := g.c
 	vShared(&c.state, c.done, g.other, g.other.ready, &g.closer.calls,
-		&g.hOtherReqIn, &g.hMineIn, &g.hOtherIn, &g.hQ1In, &g.preIncoming, &g.preNotif, &g.preOtherP, &g.preDone, &g.preQueue,
+		&g.hOtherReqIn, &g.hMineIn, &g.hOtherIn, &g.hQ1In, &g.preIncoming, &g.preNotif, &g.preOtherP, &g.preDone, &g.preOtherRet, &g.preQueue,
 		&g.preHandlerRunning, &g.preWriteErrNil, &g.preMineOpen, &g.spawnedBefore, &g.onDoneRuns)
 	vLockHook(&c.stateMu, g.pre, g.post)
 }
@@ -360,6 +360,7 @@ func (g *zzG) pre() {
 	g.preIncoming, g.preNotif = s.incoming, s.outgoingNotifications
 	otherRetired := zzRetired(g.other)
 	g.preOtherP = g.hOtherIn || otherRetired
+	g.preOtherRet = otherRetired
 	g.preQueue = append([]*incomingRequest(nil), s.handlerQueue...)
 	g.preHandlerRunning = s.handlerRunning
 	g.preDone = vIsClosed(c.done)
@@ -896,14 +897,24 @@ func zzConnCancel() {
 	default:
 		id = Int64ID(31337)
 	}
+	// inbound and outbound ids are two independent number spaces (both peers count 1, 2, 3, ...): an outgoing call of
+	// this connection may bear the very number being cancelled, and is none of Cancel's business
+	if vBool("anOutgoingCallBearsTheSameNumber") {
+		g.other = &AsyncCall{id: id, ready: make(chan struct{})}
+	}
 	otherWasIn := false
+	outgoingDropped := false
 	g.onPost = func() {
 		if g.hOtherReqIn {
 			otherWasIn = true
 		}
+		if g.hOtherIn && !g.preOtherRet && (!zzInMap(g.c, g.other) || zzRetired(g.other)) {
+			outgoingDropped = true // it was tracked and open when Cancel took the lock, and is not when Cancel released it
+		}
 	}
 	g.install()
 	g.c.Cancel(id)
+	vAssert(!outgoingDropped, "C04.cancel-of-an-inbound-request-leaves-outgoing-calls-alone")
 	mineCancelled := g.myReq.ctx.Err() != nil
 	otherCancelled := g.otherReq.ctx.Err() != nil
 	vAssert(mineCancelled == (which == 0), "C04.cancels-exactly-the-matching-request")
